@@ -163,25 +163,27 @@ func genC14Loop(r *Rng, env *Env) *C14Loop {
 	l.Post = g.Nodes(sc, 1, 2)
 	// Text that ends in "{" (or "%", "}") joins the next tag's delimiter into another token;
 	// where the joins fall differs between the two spellings of the root. Not the subject here.
-	var clean func(ns []*TNode)
-	clean = func(ns []*TNode) {
-		for _, n := range ns {
-			if n.K == "text" || n.K == "raw" || n.K == "comment" {
-				n.S = strings.NewReplacer("{", "(", "}", ")", "%", "#").Replace(n.S)
-			}
-			if n.K == "obj" && (strings.HasPrefix(n.S, "-") || strings.HasSuffix(n.S, "-")) {
-				n.Sp = 0 // "{{-1}}" would be a trim marker and a 1
-			}
-			clean(n.C)
-			for _, cl := range n.Cl {
-				clean(cl.C)
-			}
-		}
-	}
 	for _, ns := range [][]*TNode{l.Pre, l.Body1, l.Body2, l.Post, l.File} {
-		clean(ns)
+		cleanBraces(ns)
 	}
 	return l
+}
+
+// cleanBraces takes the delimiter characters out of literal text (and keeps "{{-1}}" from
+// reading as a trim marker and a 1).
+func cleanBraces(ns []*TNode) {
+	for _, n := range ns {
+		if n.K == "text" || n.K == "raw" || n.K == "comment" {
+			n.S = strings.NewReplacer("{", "(", "}", ")", "%", "#").Replace(n.S)
+		}
+		if n.K == "obj" && (strings.HasPrefix(n.S, "-") || strings.HasSuffix(n.S, "-")) {
+			n.Sp = 0
+		}
+		cleanBraces(n.C)
+		for _, cl := range n.Cl {
+			cleanBraces(cl.C)
+		}
+	}
 }
 
 // trees builds the root with the include (a) and with the content inlined (b).
@@ -471,6 +473,18 @@ func genC14(seed uint64, r *Rng, idx, vecs int) *C14Case {
 	}
 	if idx%3 == 0 {
 		cs.Loop = genC14Loop(r.Fork(91), cs.Env)
+	}
+	if strings.Contains(rels[0], "{{") {
+		// A tag that contains "}}" (inside the file's name) closes an object that literal text
+		// ending in "{" would open just before it: where tokens begin would then depend on the
+		// include tags being there. Not the subject: such graphs have no delimiter characters
+		// in their literal text.
+		cleanBraces(cs.Root)
+		cleanBraces(cs.Root2)
+		for _, f := range append(append([]*C14File{}, cs.Files...), cs.Files2...) {
+			cleanBraces(f.Tree)
+			cleanBraces(f.Alt)
+		}
 	}
 	return cs
 }
